@@ -26,7 +26,8 @@ kf = json.load(open(os.path.join(ROOT, "known_findings.json")))["findings"]
 ft = ["| Property | Status | Signature | What |", "|---|---|---|---|"]
 for f in kf:
     ft.append("| %s | %s%s | `%s` | %s |" % (f["property"], f["status"], (" " + f["commit"]) if f.get("commit") else "", f["signature"], f["what"].replace("|", "/")[:400]))
-sd = ["| Seeded change | What it does | Result | Signatures reported |", "|---|---|---|---|"]
+miss = json.load(open(os.path.join(ROOT, "seeded", "initially_missed.json")))
+sd = ["| Seeded change | What it does | Result | Signatures reported | Strengthening it prompted |", "|---|---|---|---|---|"]
 nc = nt = 0
 for d in sorted(glob.glob(os.path.join(ROOT, "seeded", "*", ""))):
     m = json.load(open(os.path.join(d, "meta.json")))
@@ -35,7 +36,8 @@ for d in sorted(glob.glob(os.path.join(ROOT, "seeded", "*", ""))):
     first = re.sub(r"^Change \d+\s*[—-]\s*", "", first)
     sig = m["ran"]["check_result"]["0"]["signatures"][:2]
     nt += 1; nc += bool(m["caught_by_check"])
-    sd.append("| %s | %s | %s | %s |" % (os.path.basename(d.rstrip("/")), first[:140].replace("|", "/"), "caught" if m["caught_by_check"] else "MISSED", "; ".join("`%s`" % x[:90] for x in sig)))
+    nm = os.path.basename(d.rstrip("/"))
+    sd.append("| %s | %s | %s | %s | %s |" % (nm, first[:140].replace("|", "/"), ("caught" if m["caught_by_check"] else "MISSED") + (" (missed by the first version)" if nm in miss else ""), "; ".join("`%s`" % x[:90] for x in sig), miss.get(nm, "")))
 sd.append("")
 sd.append("%d of %d seeded changes are caught by the quick tier." % (nc, nt))
 p = os.path.join(ROOT, "DESIGN.md")
